@@ -322,7 +322,11 @@ func (self *DbImpl) RestoreFromReader(snapshot io.Reader) {
 }
 
 func (self *DbImpl) persistSnapshot(snapshot io.Reader) (string, error) {
-	tmpPath := self.db.Path() + ".snapshot." + uuid.NewString()
+	// the handle is closed and replaced under the reload lock by a restore that may be in progress
+	self.reloadLock.RLock()
+	dbPath := self.db.Path()
+	self.reloadLock.RUnlock()
+	tmpPath := dbPath + ".snapshot." + uuid.NewString()
 	f, err := os.Create(tmpPath)
 	if err != nil {
 		return "", fmt.Errorf("failed to create snapshot file [%v] (%w)", tmpPath, err)
